@@ -46,3 +46,52 @@ Example closes_on_panic_path :
   let '(r, h) := run_api 50 p (with_fail_at (init_world [] false None) 2 2) in
   r = AError /\ close_ids h = [7; 8] /\ closes_last h = true.
 Proof. vm_compute. repeat split. Qed.
+
+(* ---------------------------------------------------------------- whole-evaluator
+   invariants (Proofs/WorldInv.v): for every program, fuel and start world *)
+From Ferret Require Import Proofs.WorldInv.
+
+(* a registered closable is never dropped from the list that Run closes *)
+Theorem closers_only_grow : forall strict (f : nat) p w,
+  exists suf, w_closers (snd (run_body_g strict f p w)) = suf ++ w_closers w.
+Proof. exact WorldInv.closers_only_grow. Qed.
+Print Assumptions closers_only_grow.
+
+(* the registrations the trace shows (EvBind, newest first) are exactly the
+   closer list, at the end of every run that starts from such a world (the
+   initial world is one) *)
+Theorem bind_events_match_closers : forall strict (f : nat) p w,
+  binds (w_trace w) = w_closers w ->
+  binds (w_trace (snd (run_body_g strict f p w))) = w_closers (snd (run_body_g strict f p w)).
+Proof. exact WorldInv.bind_events_match_closers. Qed.
+Print Assumptions bind_events_match_closers.
+
+(* hence what Run closes is what the trace shows as bound, in binding order *)
+Theorem closed_are_the_bind_events : forall wraps strict (fuel : nat) p w,
+  binds (w_trace w) = w_closers w ->
+  fst (run_api_g wraps strict fuel p w) <> AUndefined ->
+  close_ids (snd (run_api_g wraps strict fuel p w)) =
+  rev (binds (w_trace (snd (run_body_g strict fuel p w)))).
+Proof. exact run_closes_bind_events. Qed.
+Print Assumptions closed_are_the_bind_events.
+
+(* non-vacuity: the start world of a run satisfies the premise; the program of
+   the example above registers 7 then 8, and a start world that already holds a
+   closer keeps it *)
+Example bind_events_match_closers_nonvacuous :
+  let p := {| p_stmts := [SLet (bs "_") (ECall (bs "CLOSER") [EInt 7])];
+              p_ret := BFor (ForIn (bs "c") None (EArr [ECall (bs "CLOSER") [EInt 8]]) []
+                              (RReturn false (ECall (bs "T") [EInt 1]))) |} in
+  let w0 := init_world [] false None in
+  let w := snd (run_body 50 p w0) in
+  binds (w_trace w0) = w_closers w0 /\
+  binds (w_trace w) = [8; 7] /\ w_closers w = [8; 7].
+Proof. vm_compute. repeat split. Qed.
+
+Example closers_only_grow_nonvacuous :
+  let p := {| p_stmts := [SLet (bs "_") (ECall (bs "CLOSER") [EInt 7])];
+              p_ret := BReturn (ECall (bs "FAIL") []) |} in
+  let w0 := snd (eval 10 (ECall (bs "CLOSER") [EInt 5]) [[]] (init_world [] false None)) in
+  let w1 := snd (set_var (bs "x") (VStr (closer_prefix ++ int_to_string 5)) [[]] w0) in
+  w_closers w1 = [5] /\ fst (run_body 50 p w1) = Err EFunc /\ w_closers (snd (run_body 50 p w1)) = [7; 5].
+Proof. vm_compute. repeat split. Qed.
